@@ -183,6 +183,13 @@ impl Store {
     /// Reads and verifies a content-addressed blob, returning its payload.
     fn read_blob(&self, rel: &str) -> Option<Vec<u8>> {
         let data = fs::read(self.root.join(rel)).ok()?;
+        // Blobs are content-addressed: the file stem is the hash of the bytes.
+        // A mismatch means the file was damaged or swapped on disk; treat it
+        // as a miss instead of restoring a different fragment.
+        let stem = Path::new(rel).file_stem()?.to_str()?;
+        if content_hash(&data) != stem {
+            return None;
+        }
         let payload = data.strip_prefix(BLOB_MAGIC.as_slice())?;
         let (version, payload) = payload.split_first_chunk::<4>()?;
         if u32::from_le_bytes(*version) != SCHEMA_VERSION {
